@@ -11,6 +11,9 @@ binary64 against the functions imported from the repository):
   base     : Lattice.hexLatticeBaseVectors          vs Model.hexLatticeBaseVectors
   walk     : the while/for loop of Lattice.hexVertices on fake adjacency
              dictionaries (hexSortSides stubbed) vs Model.hex_vertices_abs
+  domain   : develop_lattice's test of the FILL ranges (accept / LatticeError
+             of whole conversions)                    vs Model.domain_check
+  latvec   : Lattice.latticeVector                  vs Model.latticeVector
 on random admissible prisms (regular / irregular centrally symmetric, the 48
 listing orders, 6 and 8 planes, tilted caps, any orientation and normal sense)
 and on a malformed stream (exception classes compared; a hang of the Python
@@ -59,10 +62,11 @@ ASSUMPTIONS = [
     'symmetric hexagon in one of the 48 MCNP listing orders, listed sense = '
     'side of the centre; inputs outside this family (and the behaviour at '
     'binary64) are covered by the ties and the sweep only',
-    'develop_lattice (translation of the cell by i a1 + j a2 + k a3, index '
-    'and fill logic: ranges, Fortran order, own universe, universe 0) is '
-    'shared with C06 and only swept here (whole LAT=2 decks against the '
-    'reference MCNP semantics)',
+    'of develop_lattice only the test of the FILL ranges (domain_check) and '
+    'latticeVector are modelled; the rest (Fortran order of the array, own '
+    'universe, universe 0, composition with TRCL / fill transformations, '
+    'cell_transform) is shared with C06 and only swept here (whole LAT=2 '
+    'decks against the reference MCNP semantics)',
     'extract_surfaces / the RHP macrobody expansion that produce the '
     '(plane, side) list from the deck are not modelled; swept through the '
     'decks',
